@@ -44,7 +44,7 @@ func newModelWorld(transport string, sndCap, rcvCap int) *modelWorld {
 		panic(err)
 	}
 	w.ep = ep
-	if transport != "none" {
+	if transport == "tcp" || transport == "unix" {
 		fd, peer := vsys.NewStreamPair(w.unix, sndCap, rcvCap)
 		w.bind(A, fd)
 		w.peer = peer
@@ -87,6 +87,12 @@ func (w *modelWorld) step(st Step, _ string) string {
 			w.sentA += n
 		}
 		return writeClass(n, err)
+	case OpWriteHuge:
+		n, err := vsys.Write(fd, make([]byte, 100))
+		if err == nil && st.Role == A {
+			w.sentA += n
+		}
+		return hugeClass(n, 100, err)
 	case OpFill:
 		wrote := false
 		for i := 0; i < 10000; i++ {
@@ -174,6 +180,17 @@ func (w *modelWorld) step(st Step, _ string) string {
 			s = fmt.Sprintf("S%d", a.Port-7000)
 		}
 		return fmt.Sprintf("%d from=%s", n, s)
+	case OpDialCompletes, OpDialRefused:
+		ds := vsys.Dials()
+		if len(ds) == 0 || ds[len(ds)-1].Resolved() {
+			return "no pending dial"
+		}
+		if st.Op == OpDialCompletes {
+			w.peer = ds[len(ds)-1].Accept()
+		} else {
+			ds[len(ds)-1].Refuse()
+		}
+		return "ok"
 	case OpConnectRefused, OpConnectPending, OpConnectAccepted:
 		cfd, err := vsys.Socket(vsys.AF_INET, vsys.SOCK_STREAM|vsys.SOCK_NONBLOCK|vsys.SOCK_CLOEXEC, 0)
 		if err != nil {
